@@ -642,13 +642,14 @@ for _p in ('C01', 'C05', 'C10', 'C13', 'C18'):
 # from the source and proved to append exactly the encoder model's bytes (Tie/CodecEnc.lean)
 _SKE_THEOREMS = ['FV.Tie.Message_MarshalMsg_is_model', 'FV.Tie.Message_EncodeMsg_is_model', 'FV.Tie.MessageExt_MarshalMsg_is_model',
                  'FV.Tie.MessageExt_EncodeMsg_is_model', 'FV.Tie.Forward_MarshalMsg_is_model', 'FV.Tie.Forward_EncodeMsg_is_model',
-                 'FV.Tie.Packed_MarshalMsg_is_model', 'FV.Tie.Packed_EncodeMsg_is_model']
-_SKE_TEXT = (" Regenerated tie for the encoders: the bodies of MarshalMsg / EncodeMsg of Message, MessageExt, PackedForwardMessage (msgp-generated) "
-             "and ForwardMessage (hand-written) are re-read from /repo's working tree on every run (Gen/Codec.lean, `.unknown` for anything "
+                 'FV.Tie.Packed_MarshalMsg_is_model', 'FV.Tie.Packed_EncodeMsg_is_model'] + [
+    f'FV.Tie.{t}_{m}_is_model' for t in ('Entry', 'EntryExt', 'Ping', 'Pong', 'Ack', 'HeloOpts', 'Helo') for m in ('MarshalMsg', 'EncodeMsg')]
+_SKE_TEXT = (" Regenerated tie for the encoders: the bodies of MarshalMsg / EncodeMsg of Message, MessageExt, PackedForwardMessage, Entry, EntryExt, "
+             "Ping, Pong, AckMessage, HeloOpts, Helo (msgp-generated) and ForwardMessage (hand-written) are re-read from /repo's working tree on every run (Gen/Codec.lean, `.unknown` for anything "
              "unrecognised) and T_MarshalMsg_is_model / T_EncodeMsg_is_model (Tie/CodecEnc.lean) prove that running the regenerated body on a "
              "message and the caller's bytes yields those bytes followed by T.marshal (`.err` exactly where the model has no encoding); the Go "
              "variable `err` is part of the interpreter's state (ForwardMessage.MarshalMsg returns an unchecked one).")
-for _p in ('C01', 'C02', 'C03', 'C12'):
+for _p in ('C01', 'C02', 'C03', 'C05', 'C12'):
     PROPS[_p]['translator'] = True
     PROPS[_p]['lean_modules'] = PROPS[_p]['lean_modules'] + ['FluentVerif.Tie.CodecEnc']
     PROPS[_p]['theorems'] = PROPS[_p]['theorems'] + _SKE_THEOREMS
